@@ -9,10 +9,17 @@ From Setec Require Import Server.Backup Corr.Common.
 Open Scope N_scope.
 
 Inductive case :=
-| Sc (ws : list N) (sc : list upl) (c : N)          (* the timeline *)
+| Sc (ws : list N)                                  (* instants of successful client writes *)
+     (fs : list N)                                  (* instants of write attempts whose save failed *)
+     (rs : list N)                                  (* instants of client reads (list, get, info) *)
+     (sc : list upl) (c : N)                        (* the store's script, the cancellation instant *)
      (ups : list obs_upload)                        (* requests the store received *)
+     (bids : list N)                                (* per request: identifier of the body's bytes (exact comparison) *)
      (exit : option N)                              (* instant the task returned; None = it did not *)
-     (final_gen : N) (racing : N).                  (* generation of the file at the end; writes made by the store side *)
+     (final_gen : N) (racing : N).                  (* WriteGen at the end; writes made by the store side *)
+
+Definition timeline_of (ws fs rs : list N) (sc : list upl) (c : N) : timeline :=
+  {| writes := map (fun w => (w, true)) ws ++ map (fun w => (w, false)) (fs ++ rs); script := sc; cancel := c |}.
 
 Definition U (d : N) (ok : bool) (race : N) : upl := {| u_dur := d; u_ok := ok; u_race := race |}.
 
@@ -23,12 +30,18 @@ Definition upload_beq (x y : obs_upload) : bool :=
 
 Definition check (cs : case) : bool :=
   match cs with
-  | Sc ws sc c ups ex fg racing =>
-      match backup_run {| writes := ws; script := sc; cancel := c |} with
+  | Sc ws fs rs sc c ups bids ex fg racing =>
+      match backup_run (timeline_of ws fs rs sc c) with
       | None => false
       | Some (its, x) =>
           list_beq upload_beq (map obs_of (attempts its)) ups
           && option_beq N.eqb (Some x) ex
           && mon_first ups && mon_rate ups && mon_change 0 ups && mon_snapshot ws racing ups
+          (* two consecutive acknowledged uploads never carry identical bytes *)
+          && Nat.eqb (length bids) (length ups)
+          && mon_bytes None (combine (map (fun u : obs_upload => snd u) ups) bids)
+          (* the generation moved exactly once per successful write: a failed save or a read
+             does not advance it *)
+          && (fg =? 1 + racing + N.of_nat (length ws))
       end
   end.
